@@ -4,6 +4,7 @@ import DendroModel.Theory.Reseed
 import DendroModel.Theory.Unrooted
 import DendroModel.Theory.Laminar
 import DendroModel.Theory.Lsb
+import DendroModel.Theory.C01Bridge
 /-! C01 — property theorems.  Obligations are the theorems directly in `namespace DendroModel.C01`;
 helpers live in `DendroModel.C01.Aux`.  The statements about `PyBits.*` are about definitions regenerated
 from the current source on every run. -/
@@ -347,11 +348,495 @@ theorem build_spec (t0 : Hier.T) (ss : List Nat) (hg : Good t0)
 theorem encoding_is_laminar (t : Hier.T) (hg : Good t) : ∀ x ∈ clades t, ∀ y ∈ clades t, Lam x y :=
   clades_laminar t hg
 
+end DendroModel.C01
+
+/-! ## bridges to the definitions the driver runs (added after audit H) -/
+namespace DendroModel.C01.Aux
+open DendroModel DendroModel.Hier DendroModel.C01
+
+theorem lsb_zero : Lsb.lsb 0 = 0 := by decide
+
+/-- the normalisation bit the encoder computes for a non-empty leafset: non-zero, inside the leafset, a single bit -/
+theorem lsb_ok (L : Nat) (h : L ≠ 0) : Lsb.lsb L ≠ 0 ∧ bits (Lsb.lsb L) ⊆ bits L ∧
+    ∀ a, bits (Lsb.lsb L) ⊆ bits a ∨ Disjoint (bits (Lsb.lsb L)) (bits a) := by
+  obtain ⟨k, hk, hkL, _⟩ := lsb_spec L (by omega)
+  rw [hk, bits_shift]
+  refine ⟨shift_ne_zero k, Set.singleton_subset_iff.mpr hkL, fun a => ?_⟩
+  by_cases hka : k ∈ bits a
+  · exact Or.inl (Set.singleton_subset_iff.mpr hka)
+  · exact Or.inr (Set.disjoint_singleton_left.mpr hka)
+
+theorem norm_root (L : Nat) : Hier.norm L (Lsb.lsb L) L = 0 := by
+  by_cases h : L = 0
+  · subst h; simp [Hier.norm, lsb_zero]
+  · obtain ⟨h1, h2, _⟩ := lsb_ok L h
+    exact Bridge.norm_self L _ h1 h2
+
+/-- `x &&& (x-1) = 0` says "at most one member" -/
+theorem pred_and_zero_iff (m : Nat) : (m - 1) &&& m = 0 ↔ (bits m).Subsingleton := by
+  by_cases h0 : m = 0
+  · subst h0; simp [Set.subsingleton_empty]
+  · obtain ⟨k, hk, hkm, _⟩ := lsb_spec m (by omega)
+    constructor
+    · intro h
+      unfold Lsb.lsb at hk
+      rw [Nat.and_comm, h, Nat.zero_xor] at hk
+      rw [hk, bits_shift]; exact Set.subsingleton_singleton
+    · intro h
+      have hm : m = 1 <<< k := by
+        apply bits_inj; rw [bits_shift]
+        ext j; constructor
+        · intro hj; exact h hj hkm
+        · intro hj; rw [Set.mem_singleton_iff] at hj; subst hj; exact hkm
+      have e : Lsb.lsb m = m := hk.trans hm.symm
+      unfold Lsb.lsb at e
+      have : (m &&& (m - 1)) = ((m &&& (m - 1)) ^^^ m) ^^^ m := by
+        rw [Nat.xor_assoc, Nat.xor_self, Nat.xor_zero]
+      rw [e, Nat.xor_self] at this
+      rw [Nat.and_comm]; exact this
+
+theorem tsup_mask (t : T) : (T.sup t).mask = t.mask := (suppress_keeps_masks t).2.1
+
+theorem encodeTree_mask (r : Option Bool) (s c : Bool) (t : T) : (encodeTree r s c t).mask = t.mask := by
+  unfold encodeTree
+  by_cases hc : (c && r != some true && t.cs.length == 2) = true <;> cases s <;>
+    simp [hc, tsup_mask, Bridge.collapse_mask]
+
+theorem good_basal_disjoint (t : T) (hg : Good (T.toH t)) : ∀ a b, t.cs = [a, b] → a.mask &&& b.mask = 0 := by
+  intro a b h
+  cases t with
+  | node i x l s cs =>
+    simp only [T.cs] at h; subst h
+    simp only [T.toH, T.toHL, Good, GoodL, Hier.maskL, toH_mask, Nat.or_zero] at hg
+    exact hg.2.2.1
+
+theorem mem_encode_splits (r : Option Bool) (s c : Bool) (t : T) (z : Int) :
+    z ∈ (encode r s c t).map (·.2) ↔
+      ∃ m ∈ (encodeTree r s c t).masksPost, splitOf (r == some true) (encodeTree r s c t).mask m = z := by
+  simp [encode, List.mem_map]
+
+/-- rooted: the split masks `encode` emits are exactly the leafset masks of the tree it was given -/
+theorem mem_encode_rooted (s c : Bool) (t : T) (z : Int) :
+    z ∈ (encode (some true) s c t).map (·.2) ↔ ∃ x : Nat, z = (x : Int) ∧ x ∈ t.masksPost := by
+  rw [mem_encode_splits]
+  have e : encodeTree (some true) s c t = if s then t.sup else t := by simp [encodeTree]
+  rw [e]
+  have hb : ((some true : Option Bool) == some true) = true := rfl
+  simp only [hb, splitOf, if_true]
+  cases s
+  · simp only [Bool.false_eq_true, if_false]
+    constructor
+    · rintro ⟨m, hm, rfl⟩; exact ⟨m, rfl, hm⟩
+    · rintro ⟨x, rfl, hx⟩; exact ⟨x, hx, rfl⟩
+  · simp only [if_true]
+    constructor
+    · rintro ⟨m, hm, rfl⟩; exact ⟨m, rfl, ((suppress_keeps_masks t).2.2 m).mp hm⟩
+    · rintro ⟨x, rfl, hx⟩; exact ⟨x, ((suppress_keeps_masks t).2.2 x).mpr hx, rfl⟩
+
+/-- unrooted: the collapse of the basal bifurcation and the suppression of unifurcations change the list of leafset
+    masks but not the set of normalised masks -/
+theorem encodeTree_norm_image (s c : Bool) (t : T) (hg : Good (T.toH t)) (lo : Nat) (hne : lo ≠ 0)
+    (hlo : bits lo ⊆ bits t.mask) (hsingle : ∀ a, bits lo ⊆ bits a ∨ Disjoint (bits lo) (bits a)) (z : Nat) :
+    (∃ m ∈ (encodeTree (some false) s c t).masksPost, Hier.norm t.mask lo m = z) ↔
+      (∃ m ∈ t.masksPost, Hier.norm t.mask lo m = z) := by
+  have hcol := Bridge.collapse_norm_image lo t (good_basal_disjoint t hg) hne hlo hsingle z
+  have hsup : ∀ v : T, (∃ m ∈ v.sup.masksPost, Hier.norm t.mask lo m = z) ↔ (∃ m ∈ v.masksPost, Hier.norm t.mask lo m = z) := by
+    intro v
+    constructor
+    · rintro ⟨m, hm, h⟩; exact ⟨m, ((suppress_keeps_masks v).2.2 m).mp hm, h⟩
+    · rintro ⟨m, hm, h⟩; exact ⟨m, ((suppress_keeps_masks v).2.2 m).mpr hm, h⟩
+  unfold encodeTree
+  by_cases hc : (c && (some false : Option Bool) != some true && t.cs.length == 2) = true <;> cases s <;>
+    simp only [hc, if_true, if_false, Bool.false_eq_true, hsup, hcol]
+
+theorem mem_encode_unrooted (s c : Bool) (t : T) (hg : Good (T.toH t)) (h0 : t.mask ≠ 0) (z : Int) :
+    z ∈ (encode (some false) s c t).map (·.2) ↔
+      ∃ m ∈ t.masksPost, ((Hier.norm t.mask (Lsb.lsb t.mask) m : Nat) : Int) = z := by
+  rw [mem_encode_splits, encodeTree_mask]
+  have hb : ((some false : Option Bool) == some true) = false := rfl
+  simp only [hb, split_spec, Bool.false_eq_true, if_false]
+  obtain ⟨h1, h2, h3⟩ := lsb_ok t.mask h0
+  constructor
+  · rintro ⟨m, hm, rfl⟩
+    obtain ⟨m', hm', e⟩ := (encodeTree_norm_image s c t hg _ h1 h2 h3 _).mp ⟨m, hm, rfl⟩
+    exact ⟨m', hm', by rw [e]⟩
+  · rintro ⟨m, hm, rfl⟩
+    obtain ⟨m', hm', e⟩ := (encodeTree_norm_image s c t hg _ h1 h2 h3 _).mpr ⟨m, hm, rfl⟩
+    exact ⟨m', hm', by rw [e]⟩
+
+/-- the tree of the non-vacuity examples: (t0,(t2,t3)) -/
+def exT : T := .node 0 none none none [.node 1 (some 0) none none [], .node 2 none none none
+    [.node 3 (some 2) none none [], .node 4 (some 3) none none []]]
+theorem exT_good : Good (T.toH exT) := by
+  simp [exT, T.toH, T.toHL, Good, GoodL, Hier.mask, Hier.maskL]
+
+end DendroModel.C01.Aux
+
+namespace DendroModel.C01
+open DendroModel DendroModel.Hier DendroModel.C01.Aux
+
+/-! ### (a),(b) for the driver's own `encode` -/
+
+/-- what `encode` returns, pair by pair: one pair per node of the tree left by the encoder's side effects; its first
+    component is that node's leafset mask (whose bits are, by `mask_spec`, exactly the taxa on the leaves below it) and its
+    second is that mask itself (rooted) or that mask normalised within the tree's own leafset on the lowest bit of that
+    leafset (unrooted and `is_rooted = None`; what that means as sets is `norm_sets`) -/
+theorem encode_pairs_spec (r : Option Bool) (s c : Bool) (t : T) (p : Nat × Int) :
+    p ∈ encode r s c t ↔ ∃ n ∈ (encodeTree r s c t).nodes,
+      p = (n.mask, (((if r == some true then n.mask
+              else Hier.norm (encodeTree r s c t).mask (Lsb.lsb (encodeTree r s c t).mask) n.mask) : Nat) : Int)) := by
+  simp only [encode, List.mem_map, split_spec]
+  constructor
+  · rintro ⟨m, hm, rfl⟩
+    obtain ⟨n, hn, rfl⟩ := (Bridge.mem_masksPost_iff _ m).mp hm
+    exact ⟨n, hn, rfl⟩
+  · rintro ⟨n, hn, rfl⟩
+    exact ⟨n.mask, (Bridge.mem_masksPost_iff _ _).mpr ⟨n, hn, rfl⟩, rfl⟩
+
+/-- `is_rooted = None` is encoded exactly as an unrooted tree -/
+theorem encode_none_eq_unrooted (s c : Bool) (t : T) : encode none s c t = encode (some false) s c t := rfl
+
+/-- the encoder's side effects (basal collapse, unifurcation suppression) never change the tree's leafset -/
+theorem encode_keeps_leafset (r : Option Bool) (s c : Bool) (t : T) : (encodeTree r s c t).mask = t.mask :=
+  encodeTree_mask r s c t
+
+/-! ### (c) for the driver's own `encode` -/
+
+/-- unrooted: the split masks `encode` emits are `0` (the seed edge) together with the normalised split set `usplits`
+    of the tree left by the side effects — the set the unrooted theorems above are about.  No hypothesis. -/
+theorem encode_unrooted_eq_usplits (sup col : Bool) (t : T) (s : Nat) :
+    ((s : Int) ∈ (encode (some false) sup col t).map (·.2)) ↔
+      (s = 0 ∨ s ∈ usplits (Lsb.lsb (encodeTree (some false) sup col t).mask)
+                    (T.toH (encodeTree (some false) sup col t))) := by
+  rw [mem_encode_splits]
+  rw [Bridge.usplits_or_zero _ _ (by rw [toH_mask]; exact norm_root _), toH_mask]
+  have hb : ((some false : Option Bool) == some true) = false := rfl
+  simp only [hb, split_spec, Bool.false_eq_true, if_false]
+  constructor
+  · rintro ⟨m, hm, h⟩
+    exact ⟨m, (toH_clades _ m).mpr hm, by exact_mod_cast h⟩
+  · rintro ⟨m, hm, h⟩
+    exact ⟨m, (toH_clades _ m).mp hm, by exact_mod_cast h⟩
+
+/-- rooted, full strength, about `encode`: two well-formed trees are given equal SETS of split masks by the encoder —
+    whatever the two flag settings — iff they are the same topology up to child order once unifurcations are suppressed.
+    (`Iso` is one-directional by definition; between `Good` trees — `sup_good` — it is a genuine isomorphism: `iso_same`
+    gives equal clade sets, hence `Iso` the other way round by this very theorem.) -/
+theorem encode_rooted_iff_topology (s c s' c' : Bool) (t u : T)
+    (hgt : Good (T.toH t)) (ht0 : T.mask t ≠ 0) (hgu : Good (T.toH u)) (hu0 : T.mask u ≠ 0) :
+    (∀ z : Int, z ∈ (encode (some true) s c t).map (·.2) ↔ z ∈ (encode (some true) s' c' u).map (·.2))
+      ↔ Iso (Hier.sup (T.toH t)) (Hier.sup (T.toH u)) := by
+  rw [← rooted_splits_iff_topology t u hgt ht0 hgu hu0]
+  simp only [mem_encode_rooted]
+  constructor
+  · intro h x
+    constructor
+    · intro hx
+      obtain ⟨y, hy, hyu⟩ := (h x).mp ⟨x, rfl, hx⟩
+      have : x = y := by exact_mod_cast hy
+      subst this; exact hyu
+    · intro hx
+      obtain ⟨y, hy, hyu⟩ := (h x).mpr ⟨x, rfl, hx⟩
+      have : x = y := by exact_mod_cast hy
+      subst this; exact hyu
+  · intro h z
+    constructor
+    · rintro ⟨x, rfl, hx⟩; exact ⟨x, rfl, (h x).mp hx⟩
+    · rintro ⟨x, rfl, hx⟩; exact ⟨x, rfl, (h x).mpr hx⟩
+
+/-- unrooted, necessity, about `encode`: two well-formed trees that are the same topology up to child order and
+    unifurcations get equal sets of split masks, whatever the flags (so in particular the basal collapse, which moves
+    the seed across one edge, does not change the set) -/
+theorem encode_unrooted_invariant (s c s' c' : Bool) (t u : T)
+    (hgt : Good (T.toH t)) (ht0 : T.mask t ≠ 0) (hgu : Good (T.toH u)) (hu0 : T.mask u ≠ 0)
+    (hiso : Iso (Hier.sup (T.toH t)) (Hier.sup (T.toH u))) (z : Int) :
+    z ∈ (encode (some false) s c t).map (·.2) ↔ z ∈ (encode (some false) s' c' u).map (·.2) := by
+  have hmp := (rooted_splits_iff_topology t u hgt ht0 hgu hu0).mpr hiso
+  have hmask : t.mask = u.mask := by
+    have := (iso_same _ _ hiso (sup_good _ hgt) (sup_good _ hgu)
+      (by rw [sup_mask, toH_mask]; exact ht0) (by rw [sup_mask, toH_mask]; exact hu0)).1
+    rwa [sup_mask, sup_mask, toH_mask, toH_mask] at this
+  rw [mem_encode_unrooted s c t hgt ht0, mem_encode_unrooted s' c' u hgu hu0, hmask]
+  constructor
+  · rintro ⟨m, hm, h⟩; exact ⟨m, (hmp m).mp hm, h⟩
+  · rintro ⟨m, hm, h⟩; exact ⟨m, (hmp m).mpr hm, h⟩
+
+/-- the flags alone never change the set of split masks of an unrooted tree -/
+theorem encode_unrooted_flags_invariant (s c s' c' : Bool) (t : T) (hg : Good (T.toH t)) (h0 : T.mask t ≠ 0) (z : Int) :
+    z ∈ (encode (some false) s c t).map (·.2) ↔ z ∈ (encode (some false) s' c' t).map (·.2) :=
+  encode_unrooted_invariant s c s' c' t t hg h0 hg h0
+    ((rooted_splits_iff_topology t t hg h0 hg h0).mp (fun _ => Iff.rfl)) z
+
+/-- unrooted, sufficiency, about `encode`: if the trees left by the encoder are well formed, unifurcation-free and both
+    seeded next to the lowest leaf `k` of their common leafset (seed of degree ≥ 3), equal sets of split masks force the same
+    topology up to child order.  (`_partial`: only for this canonical seed position.  That every unrooted tree can be
+    brought there by edge inversions — each of which keeps the split set, `unrooted_splits_invariant_under_inversion` —
+    is not proved; other seed positions are covered by the correspondence and the oracle's graph re-rootings only.) -/
+theorem encode_unrooted_determines_topology_partial (k : Nat) (s c s' c' : Bool) (t u : T)
+    (hgt : Good (T.toH (encodeTree (some false) s c t))) (hgu : Good (T.toH (encodeTree (some false) s' c' u)))
+    (hnt : NoUnif (T.toH (encodeTree (some false) s c t))) (hnu : NoUnif (T.toH (encodeTree (some false) s' c' u)))
+    (hct : Canon k (T.toH (encodeTree (some false) s c t))) (hcu : Canon k (T.toH (encodeTree (some false) s' c' u)))
+    (hL : t.mask = u.mask) (hk : Lsb.lsb t.mask = 1 <<< k)
+    (hs : ∀ z : Int, z ∈ (encode (some false) s c t).map (·.2) ↔ z ∈ (encode (some false) s' c' u).map (·.2)) :
+    Iso (T.toH (encodeTree (some false) s c t)) (T.toH (encodeTree (some false) s' c' u)) := by
+  have hU : ∀ x : Nat, (x = 0 ∨ x ∈ usplits (1 <<< k) (T.toH (encodeTree (some false) s c t))) ↔
+      (x = 0 ∨ x ∈ usplits (1 <<< k) (T.toH (encodeTree (some false) s' c' u))) := by
+    intro x
+    have h1 := encode_unrooted_eq_usplits s c t x
+    have h2 := encode_unrooted_eq_usplits s' c' u x
+    rw [encodeTree_mask, hk] at h1
+    rw [encodeTree_mask, ← hL, hk] at h2
+    rw [← h1, ← h2]; exact hs x
+  have hmA : Hier.mask (T.toH (encodeTree (some false) s c t)) = t.mask := by rw [toH_mask, encodeTree_mask]
+  have hmB : Hier.mask (T.toH (encodeTree (some false) s' c' u)) = t.mask := by rw [toH_mask, encodeTree_mask, hL]
+  obtain ⟨cs, hcs, hk1, h31⟩ := hct
+  obtain ⟨ds, hds, hk2, h32⟩ := hcu
+  rw [hcs] at hgt hnt hU hmA ⊢
+  rw [hds] at hgu hnu hU hmB ⊢
+  simp only [Good] at hgt hgu
+  simp only [Hier.mask] at hmA hmB
+  have hLL : maskL cs = maskL ds := hmA.trans hmB.symm
+  have h0 : maskL cs ≠ 0 := by
+    intro hz
+    have := k_mem_L hk1
+    rw [hz, bits_zero] at this; exact this
+  -- a normalised split other than "everything but the lowest leaf" is a clade of a well-formed child, hence non-zero
+  have hnz : ∀ (as : List Hier.T), GoodL as → Hier.T.leaf k ∈ as → ∀ x, x ∈ usplits (1 <<< k) (.node as) →
+      x ≠ Hier.sdiff (maskL as) (1 <<< k) → x ≠ 0 := by
+    intro as hga hka x hx hne
+    rcases (usplits_canon hga hka x).mp hx with h | ⟨c', hc', _, hxc⟩
+    · exact absurd h hne
+    · exact clades_ne_zero c' (goodL_mem hga hc').1 (goodL_mem hga hc').2 x hxc
+  apply clades_injective (.node cs) (.node ds) (by simpa [Good] using hgt) (by simpa [Hier.mask] using h0)
+    (by simpa [Good] using hgu) (by simpa [Hier.mask, ← hLL] using h0) hnt hnu
+  intro x
+  rw [clades_of_usplits hgt hk1 h31 x, clades_of_usplits hgu hk2 h32 x, hLL]
+  constructor
+  · rintro (h | h | ⟨h1, h2⟩)
+    · exact Or.inl h
+    · exact Or.inr (Or.inl h)
+    · refine Or.inr (Or.inr ⟨?_, h2⟩)
+      have hx0 := hnz cs hgt hk1 x h1 (by rw [hLL]; exact h2)
+      rcases (hU x).mp (Or.inr h1) with h | h
+      · exact absurd h hx0
+      · exact h
+  · rintro (h | h | ⟨h1, h2⟩)
+    · exact Or.inl h
+    · exact Or.inr (Or.inl h)
+    · refine Or.inr (Or.inr ⟨?_, h2⟩)
+      have hx0 := hnz ds hgu hk2 x h1 h2
+      rcases (hU x).mpr (Or.inr h1) with h | h
+      · exact absurd h hx0
+      · exact h
+
+/-! ### (e) the predicates as statements about taxon sets -/
+
+/-- `is_trivial`: on a split inside the tree's leafset, true iff one of its two sides has at most one taxon -/
+theorem is_trivial_sets (a f : Nat) (ha : bits a ⊆ bits f) :
+    isTrivial (a : Int) (f : Int) = true ↔ (bits a).Subsingleton ∨ (bits f \ bits a).Subsingleton := by
+  unfold isTrivial
+  rw [is_trivial_refines]
+  have e : a &&& f = a := (and_eq_left_iff a f).mpr ha
+  simp only [e, Bool.or_eq_true, decide_eq_true_eq, pred_and_zero_iff, bits_sdiff]
+  constructor
+  · rintro (((h | h) | h) | h)
+    · left; rw [h, bits_zero]; exact Set.subsingleton_empty
+    · right; rw [h]; simp
+    · exact Or.inl h
+    · exact Or.inr h
+  · rintro (h | h)
+    · exact Or.inl (Or.inr h)
+    · exact Or.inr h
+
+/-- `is_compatible_with` on two masks inside a non-empty tree leafset: true iff the two taxon sets are disjoint or nested.
+    This is the set-theoretic compatibility of rooted clades; for unrooted bipartitions the code passes NORMALISED masks
+    (both avoid the lowest taxon of the tree), for which it coincides with the four-quadrant definition — next theorem. -/
+theorem is_compatible_sets (a b f : Nat) (hf : f ≠ 0) (ha : bits a ⊆ bits f) (hb : bits b ⊆ bits f) :
+    isCompatible (a : Int) (b : Int) (f : Int) = true ↔
+      Disjoint (bits a) (bits b) ∨ bits a ⊆ bits b ∨ bits b ⊆ bits a := by
+  unfold isCompatible
+  rw [is_compatible_refines a b f hf, Bridge.and_of_sub ha, Bridge.and_of_sub hb]
+  simp only [Bool.or_eq_true, decide_eq_true_eq, Bridge.and_xor_zero_iff,
+    Bridge.compl_and_zero_iff f a b hb, Bridge.compl_and_xor_zero_iff f a b ha hb]
+  rw [and_eq_zero_iff]
+  tauto
+
+/-- … and on masks that both avoid some taxon `k` of the tree (normalised unrooted splits avoid the lowest one):
+    true iff one of the four intersections of sides A∩B, A∖B, B∖A, (F∖A)∩(F∖B) is empty -/
+theorem is_compatible_four_quadrants (a b f k : Nat) (ha : bits a ⊆ bits f) (hb : bits b ⊆ bits f)
+    (hk : k ∈ bits f) (hka : k ∉ bits a) (hkb : k ∉ bits b) :
+    isCompatible (a : Int) (b : Int) (f : Int) = true ↔
+      (bits a ∩ bits b = ∅ ∨ bits a \ bits b = ∅ ∨ bits b \ bits a = ∅ ∨ (bits f \ bits a) ∩ (bits f \ bits b) = ∅) := by
+  have hf : f ≠ 0 := by intro h; rw [h, bits_zero] at hk; exact hk
+  rw [is_compatible_sets a b f hf ha hb, Set.disjoint_iff_inter_eq_empty, Set.sdiff_eq_empty, Set.sdiff_eq_empty]
+  constructor
+  · rintro (h | h | h)
+    · exact Or.inl h
+    · exact Or.inr (Or.inl h)
+    · exact Or.inr (Or.inr (Or.inl h))
+  · rintro (h | h | h | h)
+    · exact Or.inl h
+    · exact Or.inr (Or.inl h)
+    · exact Or.inr (Or.inr h)
+    · exfalso
+      have : k ∈ (bits f \ bits a) ∩ (bits f \ bits b) := ⟨⟨hk, hka⟩, ⟨hk, hkb⟩⟩
+      rw [h] at this; exact this
+
+/-- `is_leafset_nested_within`: on a leafset inside the tree's leafset, true iff it is a subset of the other -/
+theorem is_nested_sets (a b f : Nat) (ha : bits a ⊆ bits f) :
+    isNested (a : Int) (b : Int) (f : Int) = true ↔ bits a ⊆ bits b := by
+  unfold isNested
+  rw [pyAnd_cast, pyAnd_cast]
+  simp only [beq_iff_eq, Int.natCast_inj]
+  rw [Nat.and_comm, and_eq_left_iff, bits_and]
+  constructor
+  · intro h x hx; exact (h hx).2
+  · intro h x hx; exact ⟨ha hx, h hx⟩
+
+/-! ### (d) for the driver's own `build` -/
+
+/-- rooted rebuild, any namespace: `build` (= `from_split_bitmasks`: head filter `prep`, then greedy insertion into the
+    star over the namespace members) fed the clades of a well-formed tree `h` **in any order and multiplicity** yields a
+    well-formed tree over all members whose clades are exactly: the star's (all members together, each member alone) plus
+    every clade of `h` with at least two taxa (other than the namespace's all-bits mask, which the filter drops and which,
+    when it is a clade at all, is the star's root). -/
+theorem build_rooted_clades (all : Nat) (members : List Nat) (h : Hier.T) (ss : List Nat)
+    (hm : members.Nodup) (hall : bits (maskL (members.map Hier.T.leaf)) ⊆ bits all)
+    (hg : Good h) (hsub : bits (Hier.mask h) ⊆ bits (maskL (members.map Hier.T.leaf)))
+    (hss : ∀ x, x ∈ ss ↔ x ∈ clades h) :
+    Good (build all members true ss) ∧ Hier.mask (build all members true ss) = maskL (members.map Hier.T.leaf) ∧
+    ∀ x, x ∈ clades (build all members true ss) ↔
+      (x = maskL (members.map Hier.T.leaf) ∨ (∃ b ∈ members, x = 1 <<< b))
+        ∨ (x ∈ clades h ∧ x ≠ all ∧ ¬ (bits x).Subsingleton) := by
+  unfold build
+  have hin : ∀ x, x ∈ clades h → bits x ⊆ bits all := fun x hx => ((clades_sub h x hx).trans hsub).trans hall
+  have hfs : ∀ x, x ∈ ss.filterMap (prep all true) ↔ (x ∈ clades h ∧ x ≠ all ∧ ¬ (bits x).Subsingleton) := by
+    intro x
+    rw [List.mem_filterMap]
+    constructor
+    · rintro ⟨s, hs, hp⟩
+      have hs' := (hss s).mp hs
+      rw [Bridge.prep_rooted_of_sub all s (hin s hs')] at hp
+      split at hp
+      · rename_i hc
+        simp only [Option.some.injEq] at hp; subst hp
+        exact ⟨hs', hc.1, by rw [← pred_and_zero_iff]; exact hc.2⟩
+      · simp at hp
+    · rintro ⟨hx, h1, h2⟩
+      refine ⟨x, (hss x).mpr hx, ?_⟩
+      rw [Bridge.prep_rooted_of_sub all x (hin x hx), if_pos ⟨h1, by rw [Ne, pred_and_zero_iff]; exact h2⟩]
+  have key := build_spec (starOf members) (ss.filterMap (prep all true)) (Bridge.starOf_good members hm)
+    (by
+      intro s hs
+      obtain ⟨h1, _, h3⟩ := (hfs s).mp hs
+      have hsS : bits s ⊆ bits (maskL (members.map Hier.T.leaf)) := (clades_sub h s h1).trans hsub
+      refine ⟨?_, ?_, Bridge.compat_star members s hsS⟩
+      · intro h0; apply h3; rw [h0, bits_zero]; exact Set.subsingleton_empty
+      · rw [Bridge.starOf_mask]; exact (and_eq_left_iff _ _).mpr hsS)
+    (by
+      intro s hs b hb
+      exact clades_laminar h hg s ((hfs s).mp hs).1 b ((hfs b).mp hb).1)
+  refine ⟨key.1, key.2.1.trans (Bridge.starOf_mask members), fun x => ?_⟩
+  rw [key.2.2 x, Bridge.starOf_clades, hfs]
+
+/-- rooted rebuild of an encoding, about `encode` and `build` together (runner-up of audit H): when the namespace members
+    are exactly the tree's taxa (the all-bits mask may still have more bits: removed members), the tree rebuilt from the
+    split masks of `encode` **handed over in any order and multiplicity** is the encoded tree up to child order and
+    unifurcations.  (`_partial`: unifurcations are suppressed on the rebuilt side too — removed in `rebuild_rooted_topology` below;
+    the unrooted rebuild — `prep`'s complement-on-bit-0 path — is covered by the correspondence only.) -/
+theorem rebuild_rooted_topology_partial (sup col : Bool) (t : T) (all : Nat) (members ss : List Nat)
+    (hg : Good (T.toH t)) (h0 : t.mask ≠ 0) (hm : members.Nodup)
+    (hmem : ∀ b, b ∈ members ↔ b ∈ bits t.mask) (hall : bits t.mask ⊆ bits all)
+    (hss : ∀ x : Nat, x ∈ ss ↔ (x : Int) ∈ (encode (some true) sup col t).map (·.2)) :
+    Iso (Hier.sup (T.toH t)) (Hier.sup (build all members true ss)) := by
+  have hstar : maskL (members.map Hier.T.leaf) = t.mask := by
+    apply bits_inj; rw [Bridge.bits_maskL_leaves]; ext b; exact hmem b
+  have hss' : ∀ x, x ∈ ss ↔ x ∈ clades (T.toH t) := by
+    intro x
+    rw [hss x, mem_encode_rooted, toH_clades]
+    constructor
+    · rintro ⟨y, hy, hyt⟩
+      have : x = y := by exact_mod_cast hy
+      subst this; exact hyt
+    · intro hx; exact ⟨x, rfl, hx⟩
+  obtain ⟨hgb, hmb, hcl⟩ := build_rooted_clades all members (T.toH t) ss hm (by rw [hstar]; exact hall) hg
+    (by rw [hstar, toH_mask]) hss'
+  rw [hstar] at hmb hcl
+  have ht0 : Hier.mask (T.toH t) ≠ 0 := by rw [toH_mask]; exact h0
+  refine (clades_eq_iff_iso (T.toH t) _ hg ht0 hgb (by rw [hmb]; exact h0)).mp ?_
+  intro x
+  rw [hcl x]
+  constructor
+  · intro hx
+    by_cases hnt : x ≠ all ∧ ¬ (bits x).Subsingleton
+    · exact Or.inr ⟨hx, hnt⟩
+    · left
+      have hxs : bits x ⊆ bits t.mask := by rw [← toH_mask]; exact clades_sub _ x hx
+      by_cases hxa : x = all
+      · left; apply bits_inj; apply Set.Subset.antisymm hxs; rw [hxa]; exact hall
+      · right
+        have hsing : (bits x).Subsingleton := by
+          by_contra hns; exact hnt ⟨hxa, hns⟩
+        obtain ⟨i, hi⟩ := ne_zero_bits (clades_ne_zero _ hg ht0 x hx)
+        refine ⟨i, (hmem i).mpr (hxs hi), ?_⟩
+        apply bits_inj; rw [bits_shift]
+        ext j; constructor
+        · intro hj; exact hsing hj hi
+        · intro hj; rw [Set.mem_singleton_iff] at hj; subst hj; exact hi
+  · rintro ((rfl | ⟨b, hb, rfl⟩) | ⟨hx, _⟩)
+    · rw [← toH_mask]; exact mask_mem_clades _
+    · exact Bridge.single_mem_clades _ b (by rw [toH_mask]; exact (hmem b).mp hb)
+    · exact hx
+
+/-- rooted rebuild of an encoding, full strength (runner-up of audit H): as `rebuild_rooted_topology_partial`, without the
+    suppression on the rebuilt side — `build` never creates a unifurcation (`Bridge.build_noUnif`) -/
+theorem rebuild_rooted_topology (sup col : Bool) (t : T) (all : Nat) (members ss : List Nat)
+    (hg : Good (T.toH t)) (h0 : t.mask ≠ 0) (hm : members.Nodup)
+    (hmem : ∀ b, b ∈ members ↔ b ∈ bits t.mask) (hall : bits t.mask ⊆ bits all)
+    (hss : ∀ x : Nat, x ∈ ss ↔ (x : Int) ∈ (encode (some true) sup col t).map (·.2)) :
+    Iso (Hier.sup (T.toH t)) (build all members true ss) ∧ NoUnif (build all members true ss) := by
+  have hne : members ≠ [] := by
+    intro he; apply h0; apply bits_inj; rw [bits_zero]
+    ext b; rw [← hmem b, he]; simp
+  have hnu := Bridge.build_noUnif all members true ss hne
+  have h := rebuild_rooted_topology_partial sup col t all members ss hg h0 hm hmem hall hss
+  rw [Bridge.sup_of_noUnif _ hnu] at h
+  exact ⟨h, hnu⟩
+
 /-! non-vacuity: the hypotheses are met by concrete trees -/
 example : Good (T.toH (.node 0 none none none [.node 1 (some 0) none none [], .node 2 none none none
     [.node 3 (some 2) none none [], .node 4 (some 3) none none []]])) := by
   simp [T.toH, T.toHL, Good, GoodL, Hier.mask, Hier.maskL]
 example : (encode (some false) true true (.node 0 none none none [.node 1 (some 0) none none [], .node 2 none none none
     [.node 3 (some 2) none none [], .node 4 (some 3) none none []]])).map Prod.fst = [1, 4, 8, 13] := by decide
+
+/-! non-vacuity of the theorems added after audit H -/
+section
+-- encode_pairs_spec / encode_unrooted_eq_usplits: the unrooted encoding of a 3-leaf tree, basal bifurcation collapsed
+example : encode (some false) true true exT = [(1, 12), (4, 4), (8, 8), (13, 0)] := by decide
+example : (12 : Int) ∈ (encode (some false) true true exT).map (·.2) := by decide
+-- encode_rooted_iff_topology / encode_unrooted_invariant / flags_invariant: hypotheses hold (and `Iso` holds reflexively)
+example : Good (T.toH exT) ∧ T.mask exT ≠ 0 := ⟨exT_good, by decide⟩
+example : Iso (Hier.sup (T.toH exT)) (Hier.sup (T.toH exT)) :=
+  (rooted_splits_iff_topology exT exT exT_good (by decide) exT_good (by decide)).mp (fun _ => Iff.rfl)
+-- the predicates: a split of {0,2,3} with sides {0} / {2,3}; clades {2,3} ⊆ {0,2,3}; avoiding taxon 0
+example : bits 1 ⊆ bits 13 := by rw [← and_eq_left_iff]; decide
+example : bits 12 ⊆ bits 13 ∧ (13 : Nat) ≠ 0 := ⟨by rw [← and_eq_left_iff]; decide, by decide⟩
+example : 0 ∈ bits 13 ∧ 0 ∉ bits 12 ∧ 0 ∉ bits 4 := by simp [bits]
+-- build_rooted_clades / rebuild_rooted_topology_partial: members = the tree's taxa, namespace with a removed bit 1
+example : Hier.render (build 15 [0, 2, 3] true [13, 12, 1, 8, 4]) = "(0,(2,3))" := by decide
+example : ([0, 2, 3] : List Nat).Nodup ∧ bits (T.mask exT) ⊆ bits 15 :=
+  ⟨by decide, by rw [← and_eq_left_iff]; decide⟩
+example : ∀ b, b ∈ ([0, 2, 3] : List Nat) ↔ b ∈ bits (T.mask exT) := by
+  intro b
+  have : T.mask exT = 1 <<< 0 ||| (1 <<< 2 ||| 1 <<< 3) := by decide
+  rw [this, bits_or, bits_or, bits_shift, bits_shift, bits_shift]; simp; tauto
+-- encode_unrooted_determines_topology_partial: the encoded example tree is (t0,t2,t3): seeded next to its lowest leaf 0
+example : Canon 0 (T.toH (encodeTree (some false) true true exT)) ∧ Lsb.lsb (T.mask exT) = 1 <<< 0 :=
+  ⟨⟨[.leaf 0, .leaf 2, .leaf 3], by rfl, by simp, by simp⟩, by decide⟩
+example : Good (T.toH (encodeTree (some false) true true exT)) ∧ NoUnif (T.toH (encodeTree (some false) true true exT)) := by
+  have e : T.toH (encodeTree (some false) true true exT) = .node [.leaf 0, .leaf 2, .leaf 3] := by rfl
+  rw [e]; simp [Good, GoodL, NoUnif, NoUnifL, Hier.mask, Hier.maskL]
+end
 
 end DendroModel.C01
